@@ -81,34 +81,67 @@ func (g *gen) headerParamOptional() {
 	if fd == nil || fd.Body == nil {
 		g.fail("%s: method Registry.Add not found", rel)
 	} else {
-		ast.Inspect(fd.Body, func(n ast.Node) bool {
-			cl, ok := n.(*ast.CompositeLit)
-			if !ok {
-				return true
-			}
-			sel, ok := cl.Type.(*ast.SelectorExpr)
-			if !ok || sel.Sel.Name != "SoyDocParamNode" {
-				return true
-			}
-			for _, el := range cl.Elts {
-				kv, ok := el.(*ast.KeyValueExpr)
+		// Registry.Add and every function or method of the same file it calls, directly or not (the folding of
+		// the header params may live in a helper): exactly one SoyDocParamNode literal with an Optional field
+		// must be built there
+		var bodies []*ast.BlockStmt
+		seen := map[*ast.FuncDecl]bool{fd: true}
+		todo := []*ast.FuncDecl{fd}
+		for len(todo) > 0 {
+			cur := todo[0]
+			todo = todo[1:]
+			bodies = append(bodies, cur.Body)
+			ast.Inspect(cur.Body, func(n ast.Node) bool {
+				call, ok := n.(*ast.CallExpr)
 				if !ok {
-					g.fail("%s: SoyDocParamNode literal in Registry.Add is not keyed", rel)
-					continue
+					return true
 				}
-				if id, ok := kv.Key.(*ast.Ident); ok && id.Name == "Optional" {
-					found++
-					if s, ok := g.hpExpr(kv.Value); ok {
-						expr = s
-					} else {
-						g.fail("%s: Optional of a folded header param is not a boolean expression over Optional/Default/Type", rel)
+				name := ""
+				switch f := call.Fun.(type) {
+				case *ast.Ident:
+					name = f.Name
+				case *ast.SelectorExpr:
+					name = f.Sel.Name
+				}
+				for _, d := range g.file(rel).Decls {
+					if c, ok := d.(*ast.FuncDecl); ok && c.Name.Name == name && c.Body != nil && !seen[c] {
+						seen[c] = true
+						todo = append(todo, c)
 					}
 				}
-			}
-			return true
-		})
+				return true
+			})
+		}
+		for _, body := range bodies {
+			ast.Inspect(body, func(n ast.Node) bool {
+				cl, ok := n.(*ast.CompositeLit)
+				if !ok {
+					return true
+				}
+				sel, ok := cl.Type.(*ast.SelectorExpr)
+				if !ok || sel.Sel.Name != "SoyDocParamNode" {
+					return true
+				}
+				for _, el := range cl.Elts {
+					kv, ok := el.(*ast.KeyValueExpr)
+					if !ok {
+						g.fail("%s: SoyDocParamNode literal in Registry.Add is not keyed", rel)
+						continue
+					}
+					if id, ok := kv.Key.(*ast.Ident); ok && id.Name == "Optional" {
+						found++
+						if s, ok := g.hpExpr(kv.Value); ok {
+							expr = s
+						} else {
+							g.fail("%s: Optional of a folded header param is not a boolean expression over Optional/Default/Type", rel)
+						}
+					}
+				}
+				return true
+			})
+		}
 		if found != 1 {
-			g.fail("%s: expected exactly one SoyDocParamNode{... Optional: ...} literal in Registry.Add, found %d", rel, found)
+			g.fail("%s: expected exactly one SoyDocParamNode{... Optional: ...} literal in Registry.Add and the functions of the file it calls, found %d", rel, found)
 		}
 	}
 	g.p("(* template/registry.go Registry.Add: Optional of a header param folded into the param list,\n   as a function of HeaderParamNode.Optional, Default != nil, Type.Expr != \"\" *)\n")
